@@ -106,6 +106,7 @@ void h_intvec_roundtrip() {
 }
 
 // ---- records
+static bool only_ws_from(size_t k) { for (size_t i = 0; i < g_out._n; i++) if (i >= k && (g_out._t[i].is_int || g_out._t[i].is_str || !std::istream::_is_ws(g_out._t[i].ch))) return false; return true; }
 #define RECORD_RT(CLS, PRE) \
 static CLS g_x_##CLS, g_y_##CLS; \
 static void rt_##CLS(int shape) { \
@@ -117,6 +118,24 @@ static void rt_##CLS(int shape) { \
   g_y_##CLS.input(g_in); \
   CHECK_EQUAL_##CLS("C12.roundtrip", "the member read back equals the member written", g_y_##CLS, g_x_##CLS); \
   CONSUMED(#CLS); \
+  VU_REACHED(); } \
+/* every prefix of what was written (a truncated file): the reader stops, and it does not take the prefix for a whole record */ \
+static void tr_##CLS(int shape) { \
+  g_vu_shape = shape; g_vu_k = 0; \
+  havoc_##CLS(g_x_##CLS); PRE; \
+  InterrogateDatabase::_file_minor_version = 3; \
+  g_x_##CLS.output(g_out); \
+  size_t vin_cut = nondet_size_t(); __CPROVER_assume(vin_cut < g_out._n); \
+  g_in._from_prefix(g_out, vin_cut); \
+  g_y_##CLS.input(g_in); \
+  OBL(g_in.fail() || only_ws_from(vin_cut), "C12.truncated " #CLS ": a record cut short is reported through the stream's fail state (read_new then sets the error flag)"); \
+  VU_REACHED(); } \
+/* the rest of a truncated file: the stream has already failed when the reader is entered */ \
+static void fl_##CLS() { \
+  g_in._from(g_out); g_in._state = std::ios_base::failbit | std::ios_base::eofbit; \
+  InterrogateDatabase::_file_minor_version = nondet_int(); \
+  g_y_##CLS.input(g_in); \
+  OBL(g_in.fail(), "C12.truncated " #CLS ": a reader entered with a failed stream leaves it failed"); \
   VU_REACHED(); }
 
 RECORD_RT(InterrogateType,
@@ -128,36 +147,54 @@ void h_type_roundtrip_s1() { rt_InterrogateType(1); }
 void h_type_roundtrip_s2() { rt_InterrogateType(2); }
 void h_type_roundtrip_s3() { rt_InterrogateType(3); }
 void h_type_roundtrip_s4() { rt_InterrogateType(4); }
+void h_trunc_type_s1() { tr_InterrogateType(1); }
+void h_trunc_type_s2() { tr_InterrogateType(2); }
+void h_trunc_type_failed_stream() { fl_InterrogateType(); }
 RECORD_RT(InterrogateFunction, (void)0)
 void h_function_roundtrip_s0() { rt_InterrogateFunction(0); }
 void h_function_roundtrip_s1() { rt_InterrogateFunction(1); }
 void h_function_roundtrip_s2() { rt_InterrogateFunction(2); }
 void h_function_roundtrip_s3() { rt_InterrogateFunction(3); }
 void h_function_roundtrip_s4() { rt_InterrogateFunction(4); }
+void h_trunc_function_s1() { tr_InterrogateFunction(1); }
+void h_trunc_function_s2() { tr_InterrogateFunction(2); }
+void h_trunc_function_failed_stream() { fl_InterrogateFunction(); }
 RECORD_RT(InterrogateFunctionWrapper, (void)0)
 void h_wrapper_roundtrip_s0() { rt_InterrogateFunctionWrapper(0); }
 void h_wrapper_roundtrip_s1() { rt_InterrogateFunctionWrapper(1); }
 void h_wrapper_roundtrip_s2() { rt_InterrogateFunctionWrapper(2); }
 void h_wrapper_roundtrip_s3() { rt_InterrogateFunctionWrapper(3); }
 void h_wrapper_roundtrip_s4() { rt_InterrogateFunctionWrapper(4); }
+void h_trunc_wrapper_s1() { tr_InterrogateFunctionWrapper(1); }
+void h_trunc_wrapper_s2() { tr_InterrogateFunctionWrapper(2); }
+void h_trunc_wrapper_failed_stream() { fl_InterrogateFunctionWrapper(); }
 RECORD_RT(InterrogateElement, (void)0)
 void h_element_roundtrip_s0() { rt_InterrogateElement(0); }
 void h_element_roundtrip_s1() { rt_InterrogateElement(1); }
 void h_element_roundtrip_s2() { rt_InterrogateElement(2); }
 void h_element_roundtrip_s3() { rt_InterrogateElement(3); }
 void h_element_roundtrip_s4() { rt_InterrogateElement(4); }
+void h_trunc_element_s1() { tr_InterrogateElement(1); }
+void h_trunc_element_s2() { tr_InterrogateElement(2); }
+void h_trunc_element_failed_stream() { fl_InterrogateElement(); }
 RECORD_RT(InterrogateManifest, (void)0)
 void h_manifest_roundtrip_s0() { rt_InterrogateManifest(0); }
 void h_manifest_roundtrip_s1() { rt_InterrogateManifest(1); }
 void h_manifest_roundtrip_s2() { rt_InterrogateManifest(2); }
 void h_manifest_roundtrip_s3() { rt_InterrogateManifest(3); }
 void h_manifest_roundtrip_s4() { rt_InterrogateManifest(4); }
+void h_trunc_manifest_s1() { tr_InterrogateManifest(1); }
+void h_trunc_manifest_s2() { tr_InterrogateManifest(2); }
+void h_trunc_manifest_failed_stream() { fl_InterrogateManifest(); }
 RECORD_RT(InterrogateMakeSeq, (void)0)
 void h_make_seq_roundtrip_s0() { rt_InterrogateMakeSeq(0); }
 void h_make_seq_roundtrip_s1() { rt_InterrogateMakeSeq(1); }
 void h_make_seq_roundtrip_s2() { rt_InterrogateMakeSeq(2); }
 void h_make_seq_roundtrip_s3() { rt_InterrogateMakeSeq(3); }
 void h_make_seq_roundtrip_s4() { rt_InterrogateMakeSeq(4); }
+void h_trunc_make_seq_s1() { tr_InterrogateMakeSeq(1); }
+void h_trunc_make_seq_s2() { tr_InterrogateMakeSeq(2); }
+void h_trunc_make_seq_failed_stream() { fl_InterrogateMakeSeq(); }
 
 // ---- older 3.x minor formats of elements: a file of minor version v lacks the members introduced later
 static void spec_write_element(std::ostream &out, const InterrogateElement &x, int v) {
